@@ -55,6 +55,84 @@ MIX = {
 }
 
 
+# design-model configurations per property: (cfg, "all" = print every behaviour | int = -simulate num, view-cfg for the
+# exhaustive invariant-only run in the thorough tier or None)
+DESIGN = {
+    "C02": [("retry.cfg", "all"), ("reports.cfg", "all")],
+    "C03": [("retry.cfg", "all"), ("reports.cfg", "all")],
+    "C04": [("flow.cfg", "all"), ("retry_nocup.cfg", "all"), ("sched.cfg", 150)],
+    "C05": [("flow.cfg", "all"), ("sched.cfg", 250)],
+    "C06": [("retry.cfg", "all"), ("retry_nocup.cfg", "all")],
+    "C07": [("retry.cfg", "all"), ("reports.cfg", "all"), ("sched.cfg", 150)],
+    "C08": [("retry_nocup.cfg", "all"), ("sched.cfg", 250)],
+    "C09": [("flow.cfg", "all"), ("sched.cfg", 250)],
+    "C10": [("flow.cfg", "all"), ("reports.cfg", "all")],
+    "C11": [("sched.cfg", 400)],
+    "C12": [("sched.cfg", 400)],
+    "C13": [("sched.cfg", 250), ("flow.cfg", "all")],
+    "C14": [("flow.cfg", "all")],
+    "C18": [("flow.cfg", "all"), ("sched.cfg", 250)],
+}
+THOROUGH_INV = {"C04": ["sched_inv.cfg"], "C05": ["sched_inv.cfg"], "C07": ["sched_inv.cfg"], "C08": ["sched_inv.cfg"],
+                "C09": ["sched_inv.cfg"], "C11": ["sched_inv.cfg"], "C12": ["sched_inv.cfg"], "C13": ["sched_inv.cfg"],
+                "C18": ["sched_inv.cfg"]}
+
+
+def prop_cfg(cfg, pid, wd):
+    """A copy of a design configuration that checks only this property's clauses."""
+    text = open(os.path.join(vlib.SPEC, cfg)).read().replace("INVARIANT NoViolation", "INVARIANT Inv_" + pid)
+    path = os.path.join(wd, pid + "." + cfg)
+    open(path, "w").write(text)
+    return path
+
+
+def design_runs(pid, tier, seed, wd):
+    """TLC on the design model: checks the property's clauses on every behaviour within the bounds and returns the
+    complete behaviours (environment script + predicted log) for replay."""
+    import replay
+    stats = {"states": 0, "transitions": 0, "runs": []}
+    behs = []
+    viols = []
+    for cfg, how in DESIGN.get(pid, []):
+        path = prop_cfg(cfg, pid, wd)
+        if how == "all":
+            rc, out, st = vlib.tlc("MCOmaha", path, workers=8, name="design.%s.%s" % (pid, cfg))
+        else:
+            num = how * (6 if tier == "thorough" else 1)
+            rc, out, st = vlib.tlc("MCOmaha", path, workers=1, name="design.%s.%s" % (pid, cfg),
+                                   extra=["-simulate", "num=%d" % num, "-depth", "600", "-seed", str(seed)])
+        if rc not in (0, 12):
+            raise vlib.ToolError("TLC failed on %s: %s" % (cfg, out[-1500:]))
+        if rc == 12 or "is violated" in out:
+            i = out.find("is violated")
+            rp = vlib.write_replay(pid, "design.%s.trace.txt" % cfg, out[max(0, i - 200):][:200000])
+            viols.append({"key": "%s:design:%s" % (pid, cfg), "replay": rp,
+                          "what": "the design model %s admits a behaviour that violates Inv_%s (TLC trace in the replay file)" % (cfg, pid)})
+        n0 = len(behs)
+        for b in replay.behaviours(out):
+            behs.append((cfg, b))
+        stats["states"] += st.get("states", 0)
+        stats["transitions"] += st.get("transitions", 0)
+        stats["runs"].append({"cfg": cfg, "mode": how, "states": st.get("states", 0), "behaviours": len(behs) - n0,
+                              "wall_s": st.get("wall_s")})
+    if tier == "thorough":
+        for cfg in THOROUGH_INV.get(pid, []):
+            path = prop_cfg(cfg, pid, wd)
+            rc, out, st = vlib.tlc("MCOmaha", path, workers=8, name="design.%s.%s" % (pid, cfg), timeout=3000)
+            if rc == 12 or "is violated" in out:
+                i = out.find("is violated")
+                rp = vlib.write_replay(pid, "design.%s.trace.txt" % cfg, out[max(0, i - 200):][:200000])
+                viols.append({"key": "%s:design:%s" % (pid, cfg), "replay": rp,
+                              "what": "the design model %s admits a behaviour that violates Inv_%s" % (cfg, pid)})
+            elif rc != 0:
+                raise vlib.ToolError("TLC failed on %s: %s" % (cfg, out[-1500:]))
+            stats["states"] += st.get("states", 0)
+            stats["transitions"] += st.get("transitions", 0)
+            stats["runs"].append({"cfg": cfg, "mode": "exhaustive, VIEW without history", "states": st.get("states", 0),
+                                  "wall_s": st.get("wall_s")})
+    return behs, stats, viols
+
+
 def run_harness(scs, wd, name):
     sc_path = os.path.join(wd, name + ".scenarios.ndjson")
     with open(sc_path, "w") as f:
@@ -104,29 +182,36 @@ def gen_scenarios(pid, tier, seed, wd):
 
 
 def run_sm(pid, tier, seed, replay, t0):
+    import replay as rpl
     wd = vlib.workdir("sm." + pid)
+    vlib.build_harness()
+    behs, dstats, viols = [], {"states": 0, "transitions": 0, "runs": []}, []
     if replay:
-        scs = [json.loads(l) for l in open(replay) if l.strip().startswith("{") and '"cfg"' in l][:1]
-        rp = json.load(open(replay)) if not scs else None
-        if rp is not None:
-            scs = [rp["scenario"]]
+        rp = json.load(open(replay))
+        scs = [rp["scenario"]]
     else:
-        scs = gen_scenarios(pid, tier, seed, wd)
+        behs, dstats, viols = design_runs(pid, tier, seed, wd)
+        scs = [rpl.to_scenario(b, "tlc-%s-%d" % (cfg.replace(".cfg", ""), i)) for i, (cfg, b) in enumerate(behs)]
+        scs += gen_scenarios(pid, tier, seed, wd)
     log_path = run_harness(scs, wd, "run")
     rejects, n_lines, mstats = vlib.monitor(log_path, pid)
     # map rejected lines to scenarios
     by_id = {s["id"]: s for s in scs}
     spans = list(vlib.split_log(log_path))
-    viols = []
     nontrivial = set()
     rx = re.compile(SM_PROPS[pid][1])
     samples = []
+    drift = 0
+    drift_samples = []
+    pred = {"tlc-%s-%d" % (cfg.replace(".cfg", ""), i): b for i, (cfg, b) in enumerate(behs)}
+    rejected_ids = set()
     for first, sid, lines in spans:
         text = "".join(lines)
         if rx.search(text):
             nontrivial.add(hashlib.sha1(re.sub(r'"(tw|tm)":-?\d+', "", text).encode()).hexdigest())
             if len(samples) < 2:
-                samples.append({"scenario": sid, "log_head": [json.loads(x) for x in lines[:6]]})
+                samples.append({"scenario": sid, "script": by_id.get(sid, {}).get("ans", {}),
+                                "log_head": [json.loads(x) for x in lines[:4]]})
     for line_no, clauses in rejects:
         if line_no == 0:
             # a verdict about the whole log (coverage obligation), not one line
@@ -146,6 +231,7 @@ def run_sm(pid, tier, seed, replay, t0):
                         key += "@%s:%s" % (pj.get("loc", "?"), pj.get("msg", "?"))
                     except ValueError:
                         pass
+                rejected_ids.add(sid)
                 rp = vlib.write_replay(pid, "%s.json" % sid, {
                     "property": pid, "clauses": names, "log_line": line_no - first + 1,
                     "scenario": by_id.get(sid), "log": [x.rstrip("\n") for x in lines[: line_no - first + 1]]})
@@ -153,17 +239,32 @@ def run_sm(pid, tier, seed, replay, t0):
                               "what": "scenario %s: clause(s) %s rejected at log line %d: %s" % (
                                   sid, names, line_no - first + 1, lines[line_no - first].strip()[:300])})
                 break
+    # spec -> implementation: predicted log vs recorded log.  A difference the monitor does not confirm as a violation
+    # of this property is model drift (reported, not an alarm): DESIGN.md section 5.
+    for first, sid, lines in spans:
+        if sid in pred:
+            d = rpl.diff(pred[sid]["obs"], [json.loads(x) for x in lines])
+            if d:
+                drift += 1
+                if len(drift_samples) < 3:
+                    drift_samples.append({"scenario": sid, "first_difference": d})
+    if drift:
+        print("SPEC-DRIFT property=%s behaviours=%d of %d (the code no longer follows the design model; first: %s)" % (
+            pid, drift, len(pred), json.dumps(drift_samples[0])[:400]))
     rc = vlib.report(pid, viols)
     cov = {
-        "states": mstats.get("states", 0), "transitions": mstats.get("transitions", 0),
+        "states": dstats["states"] + mstats.get("states", 0), "transitions": dstats["transitions"] + mstats.get("transitions", 0),
+        "design_model_runs": dstats["runs"],
         "traces_validated_against_impl": len(spans),
+        "behaviours_replayed_from_model": len(pred), "spec_drift": drift, "drift_samples": drift_samples,
         "samples": samples or [{"note": "no scenario touched this property's projection"}],
         "evaluations": len(spans), "distinct_nontrivial": len(nontrivial),
-        "rule": "seeded random environment scripts (answers of every embedder trait + stimuli at blocking points) "
-                "replayed through the real state machine; non-trivial = the recorded log matches /%s/; distinct = "
-                "distinct logs modulo clock stamps" % SM_PROPS[pid][1],
+        "rule": "TLC-enumerated behaviours of the design model (Omaha.tla, configurations in design_model_runs) replayed as "
+                "environment scripts through the real state machine, plus seeded random scripts (answers of every embedder "
+                "trait + stimuli at blocking points); every recorded log is monitored by Mon.tla; non-trivial = the recorded "
+                "log matches /%s/; distinct = distinct logs modulo clock stamps" % SM_PROPS[pid][1],
         "log_lines_monitored": n_lines,
-        "checker_cmd": "tlc Mon.tla (PROP=%s) over the recorded ndjson log" % pid,
+        "checker_cmd": "tlc MCOmaha.tla (INVARIANT Inv_%s) ; tlc Mon.tla (PROP=%s) over the recorded ndjson log" % (pid, pid),
         "exhaustive": False,
     }
     vlib.write_evidence(pid, tier, seed, "model_checking", cov, ASSUME_SM, t0, len(viols))
